@@ -10,6 +10,7 @@ from ..engine.mutate import Mutant, Variant, in_function, replace_once
 from ..engine.runner import Rule
 from ..engine.source import AnalysisError
 from ..engine.sqlfront import all_where_clauses, identifiers, split_conjuncts
+from . import shared
 from .common import callee_name, calls_in, kwarg
 
 EXPLANATION = (
@@ -244,6 +245,7 @@ def rule_defer_keeps_wakeable(ctx):
                           "an accepted defer parks the step with a wrong deferred flag or detaches its products (the edge that wakes it is lost)", "ok", where=ctx.where_of(fi, call))
     if n == 0:
         raise AnalysisError("no accepted-defer branch in mark_completed")
+    shared.check_reattach_wakes_deferred(ctx, "a step parked on a detached dynamic input stays parked when the producer is recycled and the input is attached again (no file state changes): it is never run again and its output stays stale")
     ms = ctx.prog.func("workflow.Workflow.mark_step_pending")
     ok = any(callee_name(c) == "set_state" and len(c.args) == 1 and ast.unparse(c.args[0]) == "StepState.PENDING" and not c.keywords for c in calls_in(ms.node))
     ctx.check(ok, ms.fq, "re-pending clears deferred (default argument)", "mark_step_pending passes a deferred value: a woken step stays parked", "set_state(PENDING)")
@@ -358,6 +360,7 @@ RULES = [
 ]
 
 MUTANTS = [
+    Mutant("reattach-leaves-deferred", "step.py", lambda t: re.sub(r"CREATE TRIGGER IF NOT EXISTS step_node_clear_deferred_reattached.*?END;\n", "", t, count=1, flags=re.S) if "step_node_clear_deferred_reattached" in t else None, ("R-C03-6",)),
     Mutant("pending-private-predicate", "pending.py", replace_once("WHERE ({UNAVAILABLE_INPUT_WHERE})\n", "WHERE (input_file.state NOT IN ({FileState.BUILT.value}, {FileState.CONFIRMED.value}))\n"), ("R-C03-1",)),
     Mutant("initial-ignores-detached", "step.py", replace_once("        input_node.detached OR\n        input_file.state NOT IN", "        input_file.state NOT IN"), ("R-C03-2",)),
     Mutant("outdated-counts-available", "step.py", replace_once("input_file.state NOT IN ({FileState.BUILT.value}, {FileState.CONFIRMED.value})\n    )\n)", "input_file.state NOT IN ({FileState.BUILT.value}, {FileState.CONFIRMED.value}, {FileState.OUTDATED.value})\n    )\n)"), ("R-C03-2",)),
